@@ -26,6 +26,273 @@ pub mod vx_ids {
 
 /*@include units/ids_common/spec.rs @*/
 
+    // ------------------------------------------------------------------------------------------
+    // lemmas of this unit
+    // ------------------------------------------------------------------------------------------
+    /// `c` is not covered when every entry before index `k` ends at or before `c` and the entry at `k`
+    /// (if there is one) starts after `c`
+    pub proof fn lemma_gap_uncovered<T>(s: Seq<Ent<T>>, k: int, c: int)
+        requires
+            sorted(s),
+            nonempty(s),
+            0 <= k <= s.len(),
+            forall|i: int| 0 <= i < k ==> (#[trigger] s[i]).0.end <= c,
+            k < s.len() ==> c < s[k].0.start,
+        ensures
+            !covers(s, c),
+    {
+        if covers(s, c) {
+            let j = idx_of(s, c);
+            assert(0 <= j < s.len() && inr(s[j].0, c));
+            if j < k {
+                assert(s[j].0.end <= c);
+            } else if j > k {
+                assert(s[k].0.end <= s[j].0.start);
+                assert(s[k].0.start < s[k].0.end);
+            }
+        }
+    }
+
+    /// dropping the first entry of a canonical sequence
+    pub proof fn lemma_tail<T: Merge>(s: Seq<Ent<T>>)
+        requires
+            canon(s),
+            s.len() > 0,
+        ensures
+            canon(s.subrange(1, s.len() as int)),
+            forall|c: int| covers(s.subrange(1, s.len() as int), c) <==> covers(s, c) && !inr(s[0].0, c),
+            forall|c: int| covers(s.subrange(1, s.len() as int), c) ==> #[trigger] val_at(s.subrange(1, s.len() as int), c) == val_at(s, c),
+    {
+        let t = s.subrange(1, s.len() as int);
+        assert forall|i: int| 0 <= i < t.len() implies (#[trigger] t[i]).0.start < t[i].0.end by {
+            assert(t[i] == s[i + 1]);
+        }
+        assert forall|i: int, j: int| 0 <= i < j < t.len() implies (#[trigger] t[i]).0.end <= (#[trigger] t[j]).0.start by {
+            assert(t[i] == s[i + 1] && t[j] == s[j + 1]);
+        }
+        assert forall|i: int| 0 <= i < t.len() implies (#[trigger] t[i]).1.wf() by {
+            assert(t[i] == s[i + 1]);
+        }
+        assert forall|i: int| 0 <= i < t.len() - 1 && (#[trigger] t[i]).0.end == t[i + 1].0.start implies !t[i].1.eq_spec(&t[i + 1].1) by {
+            assert(t[i] == s[i + 1] && t[i + 1] == s[i + 1 + 1]);
+        }
+        assert forall|c: int| covers(t, c) <==> covers(s, c) && !inr(s[0].0, c) by {
+            if covers(t, c) {
+                let k = idx_of(t, c);
+                assert(inr(t[k].0, c));
+                assert(t[k] == s[k + 1]);
+                assert(inr(s[k + 1].0, c));
+                assert(s[0].0.end <= s[k + 1].0.start);
+            }
+            if covers(s, c) && !inr(s[0].0, c) {
+                let k = idx_of(s, c);
+                assert(inr(s[k].0, c));
+                assert(t[k - 1] == s[k]);
+                assert(inr(t[k - 1].0, c));
+            }
+        }
+        assert forall|c: int| covers(t, c) implies #[trigger] val_at(t, c) == val_at(s, c) by {
+            let k = idx_of(t, c);
+            assert(inr(t[k].0, c));
+            assert(t[k] == s[k + 1]);
+            lemma_idx_unique(s, k + 1, c);
+        }
+    }
+
+    /// the value hypothesis of `lemma_canon_unique` is symmetric
+    pub proof fn lemma_val_eq_sym<T: Merge>(a: Seq<Ent<T>>, b: Seq<Ent<T>>)
+        requires
+            vals_wf(a),
+            vals_wf(b),
+            forall|c: int| covers(a, c) <==> covers(b, c),
+            forall|c: int| covers(a, c) ==> #[trigger] val_at(a, c).eq_spec(&val_at(b, c)),
+        ensures
+            forall|c: int| covers(b, c) ==> #[trigger] val_at(b, c).eq_spec(&val_at(a, c)),
+    {
+        assert forall|c: int| covers(b, c) implies #[trigger] val_at(b, c).eq_spec(&val_at(a, c)) by {
+            assert(covers(a, c));
+            let i = idx_of(a, c);
+            let j = idx_of(b, c);
+            assert(0 <= i < a.len() && inr(a[i].0, c));
+            assert(0 <= j < b.len() && inr(b[j].0, c));
+            assert(a[i].1.wf() && b[j].1.wf());
+            assert(val_at(a, c).eq_spec(&val_at(b, c)));
+            a[i].1.law_eq_sym(&b[j].1);
+        }
+    }
+
+    /// a sequence without entries covers nothing, so a canonical sequence with the same clocks is empty too
+    pub proof fn lemma_empty_unique<T>(a: Seq<Ent<T>>, b: Seq<Ent<T>>)
+        requires
+            a.len() == 0,
+            nonempty(b),
+            forall|c: int| covers(b, c) ==> covers(a, c),
+        ensures
+            b.len() == 0,
+    {
+        if b.len() > 0 {
+            let c = b[0].0.start as int;
+            assert(inr(b[0].0, c));
+            assert(covers(b, c));
+            assert(covers(a, c));
+            let k = idx_of(a, c);
+            assert(0 <= k < a.len());
+        }
+    }
+
+    /// the least covered clock is the start of the first entry
+    pub proof fn lemma_first_start_le<T>(a: Seq<Ent<T>>, b: Seq<Ent<T>>)
+        requires
+            ranges_ok(a),
+            ranges_ok(b),
+            a.len() > 0,
+            b.len() > 0,
+            forall|c: int| covers(b, c) ==> covers(a, c),
+        ensures
+            a[0].0.start <= b[0].0.start,
+    {
+        let c = b[0].0.start as int;
+        assert(inr(b[0].0, c));
+        assert(covers(b, c));
+        assert(covers(a, c));
+        let k = idx_of(a, c);
+        assert(0 <= k < a.len() && inr(a[k].0, c));
+        if k > 0 {
+            assert(a[0].0.end <= a[k].0.start);
+            assert(a[0].0.start < a[0].0.end);
+        }
+    }
+
+    /// the first entry of `a` reaches at least as far as the first entry of `b`: otherwise the clock
+    /// `a[0].end` is covered (it lies in `b[0]`), so `a[1]` starts there, and coalescing forces a value change
+    /// that `b[0]` does not have
+    pub proof fn lemma_first_end_ge<T: Merge>(a: Seq<Ent<T>>, b: Seq<Ent<T>>)
+        requires
+            canon(a),
+            canon(b),
+            a.len() > 0,
+            b.len() > 0,
+            a[0].0.start == b[0].0.start,
+            forall|c: int| covers(b, c) ==> covers(a, c),
+            forall|c: int| covers(a, c) ==> #[trigger] val_at(a, c).eq_spec(&val_at(b, c)),
+            forall|c: int| covers(b, c) ==> #[trigger] val_at(b, c).eq_spec(&val_at(a, c)),
+        ensures
+            a[0].0.end >= b[0].0.end,
+    {
+        if a[0].0.end < b[0].0.end {
+            let e = a[0].0.end as int;
+            assert(a[0].0.start < a[0].0.end);
+            // e and e - 1 both lie in b[0]
+            assert(inr(b[0].0, e));
+            assert(inr(b[0].0, e - 1));
+            lemma_idx_unique(b, 0, e);
+            lemma_idx_unique(b, 0, e - 1);
+            // e - 1 lies in a[0]
+            assert(inr(a[0].0, e - 1));
+            lemma_idx_unique(a, 0, e - 1);
+            // e is covered by a, and the covering entry must be a[1], starting exactly at e
+            assert(covers(a, e));
+            let k = idx_of(a, e);
+            assert(0 <= k < a.len() && inr(a[k].0, e));
+            assert(k != 0);
+            assert(a[0].0.end <= a[k].0.start);
+            if k > 1 {
+                assert(a[0].0.end <= a[1].0.start);
+                assert(a[1].0.start < a[1].0.end);
+                assert(a[1].0.end <= a[k].0.start);
+            }
+            assert(k == 1);
+            lemma_idx_unique(a, 1, e);
+            assert(a[0].0.end == a[1].0.start);
+            assert(!a[0].1.eq_spec(&a[1].1));
+            // but a[0].1 == b[0].1 == a[1].1
+            assert(val_at(a, e - 1).eq_spec(&val_at(b, e - 1)));
+            assert(val_at(b, e).eq_spec(&val_at(a, e)));
+            assert(a[0].1.eq_spec(&b[0].1));
+            assert(b[0].1.eq_spec(&a[1].1));
+            assert(a[0].1.wf() && b[0].1.wf() && a[1].1.wf());
+            a[0].1.law_eq_trans(&b[0].1, &a[1].1);
+        }
+    }
+
+    /// Canonical forms are unique: two canonical sequences that cover the same clocks with `==`-equal values
+    /// have the same ranges and entry-wise `==`-equal values.  (This is what makes "equal sets compare and
+    /// encode equal" true.)
+    pub proof fn lemma_canon_unique<T: Merge>(a: Seq<Ent<T>>, b: Seq<Ent<T>>)
+        requires
+            canon(a),
+            canon(b),
+            forall|c: int| covers(a, c) <==> covers(b, c),
+            forall|c: int| covers(a, c) ==> #[trigger] val_at(a, c).eq_spec(&val_at(b, c)),
+        ensures
+            a.len() == b.len(),
+            forall|i: int| 0 <= i < a.len() ==> (#[trigger] a[i]).0 == b[i].0 && a[i].1.eq_spec(&b[i].1),
+        decreases a.len(),
+    {
+        if a.len() == 0 {
+            lemma_empty_unique(a, b);
+        } else if b.len() == 0 {
+            lemma_empty_unique(b, a);
+        } else {
+            lemma_val_eq_sym(a, b);
+            // first entries: same start, same end, equal values
+            lemma_first_start_le(a, b);
+            lemma_first_start_le(b, a);
+            lemma_first_end_ge(a, b);
+            lemma_first_end_ge(b, a);
+            let s = a[0].0.start as int;
+            assert(a[0].0.start < a[0].0.end);
+            assert(a[0].0 == b[0].0);
+            assert(inr(a[0].0, s) && inr(b[0].0, s));
+            lemma_idx_unique(a, 0, s);
+            lemma_idx_unique(b, 0, s);
+            assert(val_at(a, s).eq_spec(&val_at(b, s)));
+            assert(a[0].1.eq_spec(&b[0].1));
+            // the rest, by induction
+            let a1 = a.subrange(1, a.len() as int);
+            let b1 = b.subrange(1, b.len() as int);
+            lemma_tail(a);
+            lemma_tail(b);
+            assert forall|c: int| covers(a1, c) <==> covers(b1, c) by {
+                assert(covers(a1, c) <==> covers(a, c) && !inr(a[0].0, c));
+                assert(covers(b1, c) <==> covers(b, c) && !inr(b[0].0, c));
+                assert(covers(a, c) <==> covers(b, c));
+                assert(inr(a[0].0, c) == inr(b[0].0, c));
+            }
+            assert forall|c: int| covers(a1, c) implies #[trigger] val_at(a1, c).eq_spec(&val_at(b1, c)) by {
+                assert(covers(b1, c));
+                assert(val_at(a1, c) == val_at(a, c));
+                assert(val_at(b1, c) == val_at(b, c));
+                assert(val_at(a, c).eq_spec(&val_at(b, c)));
+            }
+            lemma_canon_unique(a1, b1);
+            assert forall|i: int| 0 <= i < a.len() implies (#[trigger] a[i]).0 == b[i].0 && a[i].1.eq_spec(&b[i].1) by {
+                if i > 0 {
+                    assert(a1[i - 1] == a[i]);
+                    assert(b1[i - 1] == b[i]);
+                }
+            }
+        }
+    }
+
+    /// for `T = ()` (IdRange / IdSet): canonical sequences covering the same clocks are identical
+    pub proof fn lemma_canon_unique_unit(a: Seq<Ent<()>>, b: Seq<Ent<()>>)
+        requires
+            canon(a),
+            canon(b),
+            forall|c: int| covers(a, c) <==> covers(b, c),
+        ensures
+            a =~= b,
+    {
+        axiom_unit_eq();
+        assert forall|c: int| covers(a, c) implies #[trigger] val_at(a, c).eq_spec(&val_at(b, c)) by {}
+        lemma_canon_unique(a, b);
+        assert forall|i: int| 0 <= i < a.len() implies a[i] == b[i] by {
+            assert(a[i].0 == b[i].0);
+            assert(a[i].1 == b[i].1);
+        }
+    }
+
     impl IdRanges<()> {
         /*@extract yrs/src/id_set.rs | impl IdRanges<()> | fn subset_of | rules=INLINE(file=yrs/src/ids.rs;;container=impl<T: Merge> IdRanges<T>;;fn=iter;;body=self.0.iter();;call=.iter();;to=.0.iter())
         @ret r
@@ -33,7 +300,27 @@ pub mod vx_ids {
             requires canon(self@), canon(other@),
             ensures r == (forall|c: int| covers(self@, c) ==> covers(other@, c)),
         @loop 1
+            invariant
+                canon(self@),
+                canon(other@),
+                vx_i <= self.0.len(),
+                forall|k: int, c: int| 0 <= k < vx_i && #[trigger] inr(self@[k].0, c) ==> covers(other@, c),
             decreases self.0.len() - vx_i,
+        @before 1 `return false;`
+            proof {
+                // is_range_covered said "no": pick the uncovered clock of `range`; it is covered by self
+                let c = choose|c: int| inr(*range, c) && !covers(other@, c);
+                assert(inr(*range, c) && !covers(other@, c));
+                assert(inr(self@[vx_i - 1].0, c));
+                assert(covers(self@, c));
+            }
+        @before 1 `true`
+            proof {
+                assert forall|c: int| covers(self@, c) implies covers(other@, c) by {
+                    let k = idx_of(self@, c);
+                    assert(inr(self@[k].0, c));
+                }
+            }
         @*/
 
         /*@extract yrs/src/id_set.rs | impl IdRanges<()> | fn is_range_covered | rules=INLINE(file=yrs/src/ids.rs;;container=impl<T: Merge> IdRanges<T>;;fn=iter;;body=self.0.iter();;call=.iter();;to=.0.iter())
@@ -42,7 +329,33 @@ pub mod vx_ids {
             requires canon(other@),
             ensures r == (forall|c: int| inr(*range, c) ==> covers(other@, c)),
         @loop 1
+            invariant
+                canon(other@),
+                vx_i <= other.0.len(),
+                range.start <= current < range.end,
+                // everything of `range` below `current` is covered
+                forall|c: int| range.start <= c < current ==> covers(other@, c),
+                // the entries already passed end at or before `current`
+                forall|k: int| 0 <= k < vx_i ==> (#[trigger] other@[k]).0.end <= current,
             decreases other.0.len() - vx_i,
+        @before 1 `return false;`
+            proof {
+                lemma_gap_uncovered(other@, vx_i - 1, current as int);
+                assert(inr(*range, current as int));
+            }
+        @before 1 `current = other_range.end;`
+            proof {
+                assert forall|c: int| range.start <= c < other_range.end implies covers(other@, c) by {
+                    if c >= current {
+                        assert(inr(other@[vx_i - 1].0, c));
+                    }
+                }
+            }
+        @before 1 `current >= range.end`
+            proof {
+                lemma_gap_uncovered(other@, other@.len() as int, current as int);
+                assert(inr(*range, current as int));
+            }
         @*/
     }
 }
